@@ -99,20 +99,12 @@ def recognise(A, cname):
             recv = strip_views(pos[0])
             if recv is M or (recv.op == 'refine' and strip_views(recv.args[0]) is M):
                 L.e_calls.append(e)
-    # guard of the E-step: exactly `model is not None`
+    # guard of the E-step: exactly "a model exists" (`model is not None`, or the equivalent test on the running index)
     L.e_guard_ok = []
     for e in L.e_calls:
         inner = [gd for gd in e.guards if not (gd[0].op == 'nondet')]
-        ok = False
-        if len(inner) >= 1:
-            cond, pol = inner[-1] if len(inner) == 1 else inner[0]
-            # the innermost non-loop guard that mentions the model must be `model is not None`
-            for cond, pol in inner:
-                if cond.op == 'cmp' and strip_views(cond.args[1]) is M and cond.args[2].op == 'const' and cond.args[2].args[0] is None:
-                    ok = (cond.args[0] == 'IsNot' and pol) or (cond.args[0] == 'Is' and not pol)
-            extra = [gd for gd in inner if not (gd[0].op == 'cmp' and strip_views(gd[0].args[1]) is M)]
-            if extra:
-                ok = False
+        tests = [later_iteration_test(L, c, p) for c, p in inner]
+        ok = bool(inner) and any(r is True for r in tests) and all(r is True for r in tests)
         L.e_guard_ok.append(ok)
     return L
 
@@ -149,3 +141,53 @@ def value_sources(t, stop_mu=None, depth=0, seen=None):
         else:
             out.append(x2)
     return out
+
+
+def later_iteration_test(L, cond, pol=True):
+    """does the guard (cond == pol) mean "an earlier iteration has produced a model" for the EM loop L?
+         model is not None                      (the model variable starts as None and is rebound once per iteration)
+         iteration > 0 | iteration >= 1 | iteration != 0 | not iteration == 0
+    -> True (later iterations) / False (first iteration) / None (another condition)"""
+    from .walk import cond_polarity, loop_role
+    cond, pol = cond_polarity(cond, pol)
+    if not (isinstance(cond, T) and cond.op == 'cmp'):
+        return None
+    op, a, b = cond.args
+    sa, sb = strip_views(a), strip_views(b)
+    if op in ('Is', 'IsNot', 'Eq', 'NotEq') and (const_val(sb) is None or const_val(sa) is None):
+        x = sa if const_val(sb) is None else sb
+        if x is L.model_mu:
+            is_none = pol if op in ('Is', 'Eq') else not pol
+            return not is_none
+        return None
+    # tests on the running index: only meaningful if the model really is None exactly in the first iteration
+    inits = [strip_views(x) for x in unwrap_gamma(L.model_init)]
+    if not all(x.op == 'const' and x.args[0] is None for x in inits) or L.problems:
+        return None
+    ra, rb = loop_role(a, L.loop), loop_role(b, L.loop)
+    if ra is not None and ra[0] == 'index' and const_val(sb) is not NOVAL:
+        k = const_val(sb)
+    elif rb is not None and rb[0] == 'index' and const_val(sa) is not NOVAL:
+        k = const_val(sa)
+        op = {'Gt': 'Lt', 'Lt': 'Gt', 'GtE': 'LtE', 'LtE': 'GtE'}.get(op, op)
+    else:
+        return None
+    it = strip_views(L.loop.iter)
+    if not (call_parts(it)[0] == 'builtin.range' and len(call_parts(it)[1]) == 1):
+        return None
+    table = {('Gt', 0): True, ('GtE', 1): True, ('NotEq', 0): True, ('Eq', 0): False, ('Lt', 1): False, ('LtE', 0): False}
+    r = table.get((op, k))
+    if r is None:
+        return None
+    return r if pol else not r
+
+
+def split_by_iteration(L, t):
+    """t == gamma(<later-iteration test>, A, B) -> (value in later iterations, value in the first iteration) or None"""
+    t = strip_views(t)
+    if not (isinstance(t, T) and t.op == 'gamma'):
+        return None
+    r = later_iteration_test(L, t.args[0], True)
+    if r is None:
+        return None
+    return (t.args[1], t.args[2]) if r else (t.args[2], t.args[1])
